@@ -203,4 +203,27 @@ PROPS = {
                         "simulation done by the generator.",
              level_note="Trusted: Lean kernel; harness. Extended-protocol COPY (Execute) shares the same reader; its cycle end is Sync.",
              technique="Lean 4 proof (induction on the message list / handler programs) + differential correspondence with expectation oracle"),
+    "C14": P("Pw.Props.C14",
+             ["Pw.Props.C14.fill_spec", "Pw.Props.C14.fill_rel", "Pw.Props.C14.take_sim", "Pw.Props.C14.takeLength_sim",
+              "Pw.Props.C14.fields_sim", "Pw.Props.C14.row_sim", "Pw.Props.C14.skipHeader_sim", "Pw.Props.C14.first_sim",
+              "Pw.Props.C14.later_sim", "Pw.Props.C14.C14_chunking", "Pw.Props.C14.C14_count_mismatch",
+              "Pw.Props.C14.C14_truncated_count"],
+             [("bincopy", 3000, 200000)], ["Consts"],
+             group_oracle=seg_group_oracle,
+             design_ref="§7 C14",
+             level_text="Lean theorems (refinement): for EVERY way of cutting the COPY stream into CopyData messages, the row reader "
+                        "(fill/take/takeLength/skipHeader/field loop/Read, which pull messages on demand) returns exactly what a decoder "
+                        "working on the CONCATENATED stream returns - the optional header incl. its extension area, each row, NULL "
+                        "fields, end-of-data at a row boundary or at the -1 trailer, and the errors (field count differs from the "
+                        "declared columns, truncated header/field, over-long length, data after the trailer); hence two chunkings of the "
+                        "same bytes give the same Read results (C14_chunking). The decoder is total: no panic outcome exists. Proof by "
+                        "induction over the chunk list (fill) and the column list (fields) with the simulation relation 'pending ++ "
+                        "remaining payloads = remaining stream'. Tie: differential campaign of table shapes/row sets over "
+                        "int2/4/8,text,bytea,bool,uuid, header/trailer optional, 5 chunkings per stream (single, 1-byte, random, per "
+                        "row, cuts inside signature/length words/values), corruptions; oracles: rows returned by the real reader = rows "
+                        "encoded, and identical results across the chunkings of a stream.",
+             level_note="Trusted: Lean kernel; pgx binary decoders (DecodeValue) are modelled (Codec.lean), tied by the campaign. The "
+                        "reassembling reader is the repaired code (fix: commit 'decode binary COPY rows independently of CopyData "
+                        "boundaries').",
+             technique="Lean 4 proof (simulation/refinement to a flat-stream decoder, induction on chunk and column lists) + differential correspondence"),
 }
